@@ -69,21 +69,38 @@ example : checkXRefStream [1, 4, 2] [0, 6] 40 = none := by decide
 /-- non-vacuity: an ordinary layout is accepted -/
 example : checkXRefStream [1, 4, 2] [0, 3, 7, 2] 35 = some (7, 5) := by decide
 
-/-- **grid_bounded**: a worksheet grid that is allocated has at most `maxGridCells` cells,
-whatever row numbers and column references the file contains. -/
-theorem grid_bounded (maxRow maxCol : Nat) (h : gridAccepted maxRow maxCol = true) :
-    maxRow * (maxCol + 1) ≤ maxGridCells := by
-  unfold gridAccepted at h
+/-- **grid_bounded**: a worksheet grid that is allocated has at most the cells still
+available in the workbook's budget plus 16 for every cell element its part brings, whatever
+row numbers and column references the file contains: memory stays in proportion to the file. -/
+theorem grid_bounded (used elems maxRow maxCol : Nat) (h : gridAcceptedE used elems maxRow maxCol = true) :
+    maxRow * (maxCol + 1) ≤ maxGridCells - used + gridCellsPerElement * elems := by
+  unfold gridAcceptedE at h
   by_cases hr : maxRow > 0
   · simp only [hr, decide_true, Bool.true_and, Bool.not_eq_true', decide_eq_false_iff_not,
       Nat.not_lt] at h
-    calc maxRow * (maxCol + 1) ≤ maxRow * (maxGridCells / maxRow) := Nat.mul_le_mul_left _ h
-      _ ≤ maxGridCells := Nat.mul_div_le _ _
+    calc maxRow * (maxCol + 1) ≤ maxRow * ((maxGridCells - used + gridCellsPerElement * elems) / maxRow) :=
+          Nat.mul_le_mul_left _ h
+      _ ≤ maxGridCells - used + gridCellsPerElement * elems := Nat.mul_div_le _ _
+  · have : maxRow = 0 := by omega
+    subst this; simp
+
+/-- a dense sheet is always allocated: as many cell elements as a sixteenth of the grid -/
+theorem grid_dense_accepted (used elems maxRow maxCol : Nat)
+    (h : maxRow * (maxCol + 1) ≤ gridCellsPerElement * elems) :
+    gridAcceptedE used elems maxRow maxCol = true := by
+  unfold gridAcceptedE
+  by_cases hr : maxRow > 0
+  · simp only [hr, decide_true, Bool.true_and, Bool.not_eq_true', decide_eq_false_iff_not, Nat.not_lt]
+    apply (Nat.le_div_iff_mul_le hr).mpr
+    rw [Nat.mul_comm]
+    omega
   · have : maxRow = 0 := by omega
     subst this; simp
 
 example : gridAccepted 1048576 16383 = false := by decide
 example : gridAccepted 200 701 = true := by decide
+example : gridAccepted 1 8388608 = true := by decide      -- 8 Mi + 1 cells, 16 are allowed for the one element
+example : gridAccepted 1 8388624 = false := by decide
 
 /-! ### page-tree traversal makes progress -/
 
